@@ -203,6 +203,18 @@ static std::string sp(Toks& t) {
 }
 
 
+// augal lin k comp | means | covs  -- g.augmentWithNoise(g.covariance(comp)): the argument refers to the mixture's own storage
+static std::string augal(Toks& t) {
+    long lin = t.nat(), k = t.nat(), comp = t.nat();
+    GaussianMixture g(k, lin);
+    g.mean() = t.mat(lin, k); g.covariance() = t.mat(lin, lin * k);
+    t.done();
+    bool ret = g.augmentWithNoise(g.covariance(comp));
+    Out o; o.s("ok"); o.n(ret ? 1 : 0); o.n((long)g.dim); o.n((long)g.dim_covariance); o.n((long)g.dim_noise);
+    o.m(g.mean()); o.m(g.covariance());
+    return o.str();
+}
+
 // augns lin k r c | means (lin x k) | covs (lin x lin*k) | Q (r x c)   -- augmentWithNoise with any (also non-square) matrix
 static std::string augns(Toks& t) {
     long lin = t.nat(), k = t.nat(), r = t.nat(), c = t.nat();
@@ -437,6 +449,9 @@ static std::string ukfps(Toks& t) {
     if (variant == 1) { G = t.mat(n, nz); Q = t.mat(nz, nz); Qeff = t.mat(n, n); } else { Q = t.mat(n, n); Qeff = Q; }
     VectorXd u = t.vec(n);
     long steps = t.nat();
+    // object hand-over: 0 none; 1 move-constructed before the first step; 2 move-constructed after the first step;
+    // 3 move-assigned (into an object built with other parameters over another model) after the first step
+    long hand = t.nat();
     std::unique_ptr<UKFPrediction> up;
     HTvState* usm0 = nullptr; HGenState* usm1 = nullptr; HConstExo* uexo = nullptr; HConstExo* kexo = nullptr;
     if (variant == 0) {
@@ -456,7 +471,15 @@ static std::string ukfps(Toks& t) {
     sigma_point::UTWeight w(VectorDescription(n, 0, variant == 1 ? nz : 0), a, b, kap);
     Out o; o.s("ok");
     for (long s = 0; s < steps; ++s) {
-        bool skip = t.flag(); long k = t.nat();
+        if ((hand == 1 && s == 0) || (hand == 2 && s == 1)) {
+            std::unique_ptr<UKFPrediction> moved(new UKFPrediction(std::move(*up)));
+            up = std::move(moved);
+        } else if (hand == 3 && s == 1) {
+            std::unique_ptr<UKFPrediction> other(new UKFPrediction(std::unique_ptr<AdditiveStateModel>(new HTvState(MatrixXd::Identity(n + 1, n + 1), MatrixXd::Identity(n + 1, n + 1))), 0.7, 1.0, 0.5));
+            *other = std::move(*up);
+            up = std::move(other);
+        }
+        bool skip = t.flag(); long k = t.nat(); bool alias = t.flag();
         // optional new content of the model from this step on (same sizes): F, noise input G, Q, exogenous input
         if (t.nat()) {
             F = t.mat(n, n);
@@ -477,7 +500,8 @@ static std::string ukfps(Toks& t) {
         MatrixXd X = sigma_point::sigma_point(inp, w.c);
         up->getStateModel().skip("state", skip);
         kp.getStateModel().skip("state", skip);
-        up->predict(prev, predU);
+        if (alias) { predU = prev; up->predict(predU, predU); }   // the same mixture as input and output
+        else up->predict(prev, predU);
         kp.predict(prev, predK);
         if (s > 0) o.s(";;");
         o.n((long)X.rows()); o.n((long)X.cols());
@@ -494,6 +518,8 @@ static std::string ukfcs(Toks& t) {
     MatrixXd H = t.mat(m, n), D, R, Reff;
     if (variant == 1) { D = t.mat(m, nz); R = t.mat(nz, nz); Reff = t.mat(m, m); } else { R = t.mat(m, m); Reff = R; }
     long steps = t.nat();
+    long hand = t.nat();   // 0 none; 1 move-constructed before the first step; 2 move-constructed after the first step
+    bool cskipping = false;
     VectorXd y0 = VectorXd::Zero(m);
     HLtiMeas* um0 = nullptr; HGenMeas* um1 = nullptr;
     std::unique_ptr<UKFCorrection> uc;
@@ -510,7 +536,13 @@ static std::string ukfcs(Toks& t) {
     sigma_point::UTWeight w(VectorDescription(n, 0, variant == 1 ? nz : 0), a, b, kap);
     Out o; o.s("ok");
     for (long s = 0; s < steps; ++s) {
-        long fail = t.nat(), k = t.nat();
+        if ((hand == 1 && s == 0) || (hand == 2 && s == 1)) {
+            std::unique_ptr<UKFCorrection> moved(new UKFCorrection(std::move(*uc)));
+            uc = std::move(moved);
+        }
+        long fail = t.nat(), k = t.nat(); bool alias = t.flag(); long cskip = t.nat();
+        // cskip: 0 leave, 1 skip(true), 2 skip(false) — set on both corrections BEFORE a possible hand-over of the next step
+        if (cskip == 1) { uc->skip(true); kc.skip(true); cskipping = true; } else if (cskip == 2) { uc->skip(false); kc.skip(false); cskipping = false; }
         // optional new noise dimension / noise input matrix / noise covariance from this step on (generic constructor with
         // update_weights_online: "the noise size might depend on the number of measurements available")
         long chg = t.nat();
@@ -538,18 +570,25 @@ static std::string ukfcs(Toks& t) {
         Snapshot s0(pred);
         GaussianMixture inp = pred; if (variant == 1) inp.augmentWithNoise(R);
         MatrixXd X = sigma_point::sigma_point(inp, w.c);
-        uc->correct(pred, corrU);
+        if (alias) { GaussianMixture keepw = corrU; corrU = pred; corrU.weight() = keepw.weight(); uc->correct(corrU, corrU); }
+        else uc->correct(pred, corrU);
         // After a failing model call the likelihood is not asked for: what getLikelihood() reports then is C12's
         // subject (before fix 5117f2c it paired the previous step's innovations_ with a predicted_meas_ overwritten
         // by the failed transform); C04 speaks of successful steps only.
         std::pair<bool, VectorXd> likU(false, VectorXd()), likK(false, VectorXd());
-        if (fail == 0) likU = uc->getLikelihood();
+        bool lik_stable = true;
+        if (fail == 0 && !cskipping) {
+            likU = uc->getLikelihood();
+            auto again = uc->getLikelihood();   // a query must not change what the next query answers
+            lik_stable = (again.first == likU.first) && (again.second.size() == likU.second.size()) &&
+                         (likU.second.size() == 0 || std::memcmp(again.second.data(), likU.second.data(), sizeof(double) * likU.second.size()) == 0);
+        }
         kc.correct(pred, corrK);
-        if (fail == 0) likK = kc.getLikelihood();
+        if (fail == 0 && !cskipping) likK = kc.getLikelihood();
         if (s > 0) o.s(";;");
         o.n((long)X.rows()); o.n((long)X.cols());
         outGMs(o, corrU); outLik(o, likU); outGMs(o, corrK); outLik(o, likK); o.m(X);
-        o.s(s0.same(pred) ? "in-same" : "in-modified");
+        o.s(s0.same(pred) ? "in-same" : "in-modified"); o.s(lik_stable ? "lik2-same" : "lik2-differs");
     }
     t.done();
     return o.str();
@@ -561,6 +600,7 @@ int main() {
         if (op == "utwd") { out = utwd(t); return true; }
         if (op == "sp") { out = sp(t); return true; }
         if (op == "augns") { out = augns(t); return true; }
+        if (op == "augal") { out = augal(t); return true; }
         if (op == "ut") { out = ut(t); return true; }
         if (op == "utc") { out = utc(t); return true; }
         if (op == "ukfp") { out = ukfp(t); return true; }
